@@ -68,6 +68,19 @@ Definition restart (s : nstate) (numid : nat) : nstate :=
   | None => mkN (abstracts s) (next_abs s) (instances s) (S (next_num s))
   end.
 
+(* Save and Open (or rendering as a document template), then the first list call: the numbering manager of the new
+   document takes the existing part over.  The definitions stay (under their ids), the cache of the manager starts
+   empty - modelled by keys no configuration has (level 9 and above) -, and the counters continue after the highest
+   ids in use *)
+Definition dead_key (k : key) : key := let '(t, sy, l, z) := k in (t, sy, 9 + l, z).
+Definition key_live (k : key) : bool := let '(_, _, l, _) := k in Nat.leb l 8.
+Definition next_after (ids : list nat) (base : nat) : nat := fold_left (fun acc i => Nat.max acc (S i)) ids base.
+Definition reopen (s : nstate) : nstate :=
+  mkN (map (fun e => (dead_key (fst e), snd e)) (abstracts s))
+      (next_after (map (fun e => fst (snd e)) (abstracts s)) 0)
+      (instances s)
+      (next_after (map fst (instances s)) 1).
+
 Definition level_def (s : nstate) (numid ilvl : nat) : option (option N * option ltext * Z) :=
   match find_inst numid (instances s) with
   | None => None
@@ -86,6 +99,10 @@ Definition has_note (s : notes) (id : nat) : bool := existsb (fun q => Nat.eqb (
 Definition remove_note (s : notes) (id : nat) : notes * bool :=
   if has_note s id then (mkNotes (filter (fun q => negb (Nat.eqb (fst q) id)) (live s)) (next_id s), true)
   else (s, false).
+
+(* Save and Open, then the first notes call: the notes of the part are taken over as they are; new notes get the
+   ids after the highest one in use *)
+Definition reopen_notes (s : notes) : notes := mkNotes (live s) (next_after (map fst (live s)) 1).
 
 (* ---- table of contents -------------------------------------------------------------------------- *)
 
